@@ -277,6 +277,21 @@ def check_pairing(model, rep):
         if k not in seen:
             seen.add(k)
             rep.decide(ok, 'C17.pairing', 'Solver.run:one-record-per-instant', why, loc=f'{mod}:{line}', detail=f'context {name}')
+    # before the stepping loop: a fresh start appends one instant and records once, a continuation does neither
+    for rp in rm.paths:
+        n_time = sum(1 for ev in rp.pre if ev.kind == 'time')
+        recs = [ev for ev in rp.pre if any(c[1] == 'update_time_variables' for c in ev.calls)]
+        if rp.fresh is None:
+            continue
+        ok = len(recs) == n_time and n_time == (1 if rp.fresh else 0)
+        what = 'fresh start' if rp.fresh else 'continuation'
+        k = ('pre', what, ok, len(recs), n_time)
+        if k not in seen:
+            seen.add(k)
+            rep.decide(ok, 'C17.pairing', f'Solver.run[{what}]:before-stepping',
+                       f'before the stepping loop a {what} appends {n_time} instant(s) and records {len(recs)} sample(s) per element '
+                       f'(expected {"1 and 1" if rp.fresh else "0 and 0"}): every list ends up {"longer" if len(recs) > n_time else "shorter"} than Powertrain.time',
+                       loc=f'{mod}:{recs[0].lineno if recs else rm.member.node.lineno}')
     # raising paths between the time append and the recorder leave the axis one longer than the lists: not decidable here
     return rm
 
